@@ -267,6 +267,41 @@ def main():
                             rr = Repo(dst)
                             for o2 in TREES:
                                 rr.refs[b"refs/heads/" + o2.encode()] = commits[o2]
+                # (c3) switch after a tracked directory was replaced by a symlink to a directory OUTSIDE the work tree holding
+                # copies of its files: nothing behind the link may be touched, and the paths below it that the target lacks
+                # leave the index all the same (targets with paths at or below the directory would have to write through
+                # the link: refused by design, not exercised)
+                tops = sorted({p_.split(b"/")[0] for p_ in listing if b"/" in p_})
+                for top in tops[:1]:
+                    for other, olisting in TREES.items():
+                        if other == name or any(q_ == top or q_.startswith(top + b"/") for q_ in olisting if olisting.get(q_) != listing.get(q_)):
+                            continue
+                        cases += 1
+                        outside = os.path.join(os.fsencode(d), b"outside_%d" % cases)
+                        try:
+                            shutil.copytree(os.path.join(os.fsencode(dst), top), outside, symlinks=True)
+                            before = wd_listing(os.fsdecode(outside))
+                            shutil.rmtree(os.path.join(os.fsencode(dst), top))
+                            os.symlink(outside, os.path.join(os.fsencode(dst), top))
+                            try:
+                                porcelain.checkout(rr, other.encode())
+                            except Exception:  # noqa: BLE001
+                                skipped_refused[0] += 1
+                            else:
+                                if rr.open_index().commit(rr.object_store) != rr[commits[other]].tree:
+                                    fail("branch switch with a directory replaced by a symlink: the index does not reproduce the target tree", {"from": name, "to": other, "directory": top.decode("latin-1"), "index": show(index_listing(rr))})
+                            if wd_listing(os.fsdecode(outside)) != before:
+                                fail("branch switch with a directory replaced by a symlink: files behind the link were touched", {"from": name, "to": other, "directory": top.decode("latin-1")})
+                        except Exception as e:  # noqa: BLE001
+                            fail("branch switch with a directory replaced by a symlink raised", {"from": name, "to": other, "directory": top.decode("latin-1"), "exc": repr(e)[:300]})
+                        finally:
+                            shutil.rmtree(outside, ignore_errors=True)
+                            rr.close()
+                            shutil.rmtree(dst, ignore_errors=True)
+                            porcelain.clone(src, dst, checkout=True, branch=name.encode(), errstream=NULL)
+                            rr = Repo(dst)
+                            for o2 in TREES:
+                                rr.refs[b"refs/heads/" + o2.encode()] = commits[o2]
                 rr.close()
             except Exception as e:  # noqa: BLE001
                 fail("checkout raised", {"tree": name, "exc": repr(e)[:300]})
@@ -326,6 +361,9 @@ def main():
             diff = [p for p in set(got) | set(wd) if got.get(p) != wd.get(p)]
             if diff and all(p in got and p in wd and got[p][1] == wd[p][1] and {got[p][0], wd[p][0]} == {F, X} for p in diff):
                 fail("an executable-bit-only change is not noticed (status / add)", {"where": "add -A leaves the old mode in the index", "paths": sorted(p.decode() for p in diff)})
+            elif diff and all(p in got and p not in wd and any(os.path.islink(os.path.join(os.fsencode(root), b"/".join(p.split(b"/")[:k]))) for k in range(1, p.count(b"/") + 1)) for p in diff):
+                # own label (known finding): every other difference between index and directory is still a violation
+                fail("add keeps index entries that lie beyond a symlinked directory", {"where": "add -A after a tracked directory was replaced by a symlink", "paths": sorted(p.decode("latin-1") for p in diff)})
             elif got != wd:
                 raise AssertionError(f"after staging everything the index differs from the directory: index-only {sorted(set(got) - set(wd))}, "
                                      f"directory-only {sorted(set(wd) - set(got))}, differing {sorted(p for p in got if p in wd and got[p] != wd[p])}")
@@ -367,7 +405,24 @@ def main():
             got = index_listing(rr)
             if got != base:
                 raise AssertionError(f"after reset --mixed the index differs from HEAD: {sorted(p for p in set(got) | set(base) if got.get(p) != base.get(p))}")
-        EDITS = [E_link_same_blob, E_stage_a, E_reset_mixed, E_modify_same, E_modify_size, E_chmod_x, E_chmod_nox, E_delete, E_untracked, E_file_to_link, E_link_to_file, E_file_to_dir, E_stage_all, E_rm_cached, E_unstage_a, E_dir_to_file]
+        def E_dir_to_link(root, rr):
+            # a tracked directory replaced by a symlink to a copy of itself outside the work tree
+            p = os.path.join(root, "d")
+            if os.path.isdir(p) and not os.path.islink(p):
+                out = root + "_outside_d"
+                if not os.path.exists(out):
+                    shutil.copytree(p, out, symlinks=True)
+                shutil.rmtree(p)
+                os.symlink(out, p)
+
+        def E_link_to_dir(root, rr):
+            # a tracked symlink replaced by a directory with a file in it
+            p = os.path.join(root, "l")
+            if os.path.islink(p):
+                os.remove(p)
+                os.mkdir(p)
+                open(os.path.join(p, "inner"), "wb").write(b"i\n")
+        EDITS = [E_dir_to_link, E_link_to_dir, E_link_same_blob, E_stage_a, E_reset_mixed, E_modify_same, E_modify_size, E_chmod_x, E_chmod_nox, E_delete, E_untracked, E_file_to_link, E_link_to_file, E_file_to_dir, E_stage_all, E_rm_cached, E_unstage_a, E_dir_to_file]
         K = 2 if tier == "quick" else 3
         seqs = [s for k in range(1, K + 1) for s in itertools.product(range(len(EDITS)), repeat=k)]
         if tier == "thorough":
@@ -436,7 +491,7 @@ def main():
     print("\n" + json.dumps({"name": "c18_worktree", "function": "dulwich/index.py build_index_from_tree/update_working_tree/get_unstaged_changes, porcelain.status/checkout/add/clone",
                       "cases": cases, "exhaustive": True,
                       "bound": f"{len(TREES)} trees (files, empty, binary, non-UTF-8 and quoted names, executables, symlinks, nesting, file/dir/link type swaps): checkout + all ordered "
-                      f"branch switches, and the same switches with one of the first 4 tracked paths deleted on disk / replaced by a directory holding an untracked file ({skipped_refused[0]} refused by dulwich and left untouched: skipped); "
+                      f"branch switches, and the same switches with one of the first 4 tracked paths deleted on disk / replaced by a directory holding an untracked file, or with a tracked directory replaced by a symlink to an outside copy ({skipped_refused[0]} refused by dulwich and left untouched: skipped); "
                       f"all sequences of <= {K} of {len(EDITS)} edits on the base tree with status checked after every edit"
                       + ("; git 2.39 status cross-check on every 4th sequence" if tier == "thorough" else ""),
                       "failures": failures, "secs": round(time.time() - t0, 2)}))
